@@ -34,6 +34,8 @@ def apply_contract(eng, st, con, pos, kw, constructing=None):
         a = eng.bind_contract_args(con, pos, kw)
     for (n, t) in con.params:
         nm = n.lstrip("*")
+        if nm not in a and ("global", nm) in st.ghost:
+            a[nm] = st.ghost[("global", nm)]          # a module global the callee reads (pseudo-parameter of its contract)
         if nm not in a:
             d = getattr(t, "default", None)
             if d is None:
@@ -77,6 +79,11 @@ def apply_contract(eng, st, con, pos, kw, constructing=None):
             else:
                 s2, result = make_result(eng, s2, con, Env(a, st, s2, eng=eng), case)
             ens = case.ensures(Env(a, st, s2, res=result, eng=eng))
+            if z3.is_false(ens):
+                # the post-condition cannot even be stated for the result the contract builds at a call site (typically a missing
+                # `result=` builder): dropping the normal outcome silently would make the caller's proof vacuous
+                raise Unsupported(f"contract {con.key} case {case.name}: post-condition is literally False at this call site "
+                                  f"(no usable result builder?)")
             s2n = s2.assume(ens)
             if eng.feasible(s2n):
                 res.append(("ok", s2n, result))
